@@ -462,9 +462,45 @@ class SymEval:
                 frame.env[n] = T.sym(f"loopout{lid}:{n}")
         for d, a in really_attrs:
             self.heap[(T.sym(d), a)] = T.sym(f"loopout{lid}:{d}.{a}")
+        if kind == "for" and target is not None:
+            self._loop_to_comprehension(lid, st, frame, iter_term, target, snap[0], snap[1], snap[3])
         if st.orelse:
             self.exec_block(st.orelse, frame)
         return lid
+
+    def _loop_to_comprehension(self, lid, st, frame, iter_term, target, ev0, env0, live0):
+        """A local list / dict that a `for` loop fills with exactly one (possibly guarded) append / item store per iteration is
+        the comprehension `[elt for target in iter if cond]` / `{k: v for ...}`: give it that normal form, so that rules see the
+        same term whichever way the code is written."""
+        for n in ast.walk(st):
+            if isinstance(n, (ast.Break, ast.Return)) or (isinstance(n, (ast.For, ast.While)) and n is not st):
+                return
+        tname = _dotted(target) or ast.unparse(target)
+        stack = self.loop_stack + (lid,)
+
+        def conds_of(g):
+            c = g if live0 == T.TRUE else T.assume(g, live0, True)
+            return () if c == T.TRUE else (c,)
+
+        for n, v in list(frame.env.items()):
+            pre = env0.get(n)
+            if pre is None or pre == v:
+                continue
+            if v[0] == "accum" and pre[0] in ("list", "accum"):
+                pre_items = pre[2] if pre[0] == "accum" else ()
+                base = pre[1] if pre[0] == "accum" else pre
+                if v[1] != base or v[2][:len(pre_items)] != pre_items or len(v[2]) != len(pre_items) + 1:
+                    continue
+                _, g, elt, loops, how = v[2][-1]
+                if how != "append" or loops != stack:
+                    continue
+                comp = ("comp", "list", elt, ((tname, iter_term),), conds_of(g))
+                frame.env[n] = comp if (pre[0] == "list" and not pre[1]) else T.mk_call("+", [pre, comp])
+            elif v[0] == "dict" and pre == ("dict", ()) and len(v[1]) == 1:
+                sts = [e for e in self.events[ev0:] if e.kind == "store_sub" and e.name == n]
+                if len(sts) != 1 or sts[0].loops != stack or (sts[0].key, sts[0].term) != v[1][0]:
+                    continue
+                frame.env[n] = ("comp", "dict", ("tuple", v[1][0]), ((tname, iter_term),), conds_of(sts[0].guard))
 
     def _loop_pass(self, lid, kind, st, frame, iter_term, target, cond_ast, carried, carried_attrs) -> LoopInfo:
         pre_env = dict(frame.env)
